@@ -265,3 +265,32 @@ func (p *Path) symCopy(dst, src Value) (Value, bool) {
 }
 
 var _ = big.NewInt
+
+// symToSlice is the generic fallback: fix the window start (forking over its
+// feasible values) and continue with an ordinary slice.
+func (p *Path) symToSlice(s SymSliceV) SliceV {
+	st := int(p.concretize(s.Start, "symbolic slice window start").Int64())
+	return SliceV{Arr: s.Arr, Off: st, Len: s.Len, Cap: s.Cap}
+}
+
+// symBytesTerms returns the byte terms of a byte slice argument; for a
+// zero-padded suffix window (the result of Bytes()) the whole backing array has
+// the same big-endian value, so no fork is needed.
+func (p *Path) bigEndianBytes(v Value) []*Term {
+	ss, ok := v.(SymSliceV)
+	if !ok {
+		return p.sliceBytes(v.(SliceV))
+	}
+	if ss.ZeroBefore {
+		n := p.arrayLen(ss.Arr)
+		if e, ok := linConstSum(ss.Start, ss.Len); ok && e == int64(n) {
+			arr := (*p.slot(ss.Arr)).(*ArrayV)
+			out := make([]*Term, n)
+			for i := range out {
+				out[i] = arr.E[i].(*Term)
+			}
+			return out
+		}
+	}
+	return p.sliceBytes(p.symToSlice(ss))
+}
